@@ -134,6 +134,8 @@ class CoreSummaries:
     def core_spec_funcs(self):
         def occ_(I, md):
             t, k = I.seq_term(md)
+            if t is None:
+                return VInt(0)
             if k is K_MDE:
                 return VInt(sym.occ(R, t))
             if k is K_MD:
@@ -183,6 +185,8 @@ def values_equal_across(I, st_a, a, st_b, b):
                 return ('seq', v.t, v.kind)
             if isinstance(v, sym.VDict):
                 c = st.heap[v.loc]
+                if c.kkind is None:
+                    return ('empty', None)
                 return ('dict', c.keys, c.vals)
             if isinstance(v, sym.VSet):
                 c = st.heap[v.loc]
@@ -193,7 +197,7 @@ def values_equal_across(I, st_a, a, st_b, b):
             if na[0] == nb[0]:
                 return z3.BoolVal(True)
             o = nb if na[0] == 'empty' else na
-            if o[0] == 'seq':
+            if o[0] in ('seq', 'dict'):
                 return z3.Length(o[1]) == 0
             return z3.BoolVal(False)
         if na[0] != nb[0]:
